@@ -1,6 +1,7 @@
 (** C19 — property theorems.  This file contains nothing but statements closed by [exact]. *)
 From Coq Require Import ZArith QArith.
-From KV Require Import Base.Outcome Base.Num C19.Model C19.ProofsTime.
+From Coq Require Import Qminmax.
+From KV Require Import Base.Outcome Base.Num C19.Model C19.ProofsTime C19.ProofsEasing.
 Local Open Scope Q_scope.
 
 (** Adding a non-negative amount: the fraction stays in [0,1), ticks + fraction grows by
@@ -44,3 +45,27 @@ Proof. exact ct_add_sub_roundtrip. Qed.
 Theorem clocktime_order :
   forall a b : ctime Q, frac_ok a -> frac_ok b -> ct_cmp a b = Some (value a ?= value b).
 Proof. exact ct_cmp_spec. Qed.
+
+(** Every built-in easing with a positive power maps 0 to 0 and 1 to 1, is monotone on [0,1]
+    (record [shape]), hence stays in [0,1] there; Powf variants under the stated libm hypothesis. *)
+Theorem easing_laws :
+  forall (powf : Q -> Q -> Q) (e : easing Q), positive_power e -> oracle_ok powf e -> shape (ease powf e).
+Proof. exact easing_shape. Qed.
+
+Theorem easing_range :
+  forall f : Q -> Q, shape f -> forall x, 0 <= x <= 1 -> 0 <= f x <= 1.
+Proof. exact shape_range. Qed.
+
+(** The three clock-speed units convert consistently (non-zero speeds). *)
+Theorem clock_speed_consistent :
+  forall s : cspeed Q,
+    (match s with SecondsPerTick x | TicksPerSecond x | TicksPerMinute x => ~ x == 0 end) ->
+    as_tps s == / as_spt s /\ as_tpm s == 60 * as_tps s /\ as_spt s * as_tps s == 1.
+Proof. exact cspeed_consistent. Qed.
+
+(** A mapping clamps its input to the input range (normal and inverted ranges). *)
+Theorem mapping_clamps_input :
+  forall (powf : Q -> Q -> Q) (m : mapping Q) (x : Q),
+    ~ in_lo m == in_hi m ->
+    map_value powf m x = map_value powf m (clampQ (Qmin (in_lo m) (in_hi m)) (Qmax (in_lo m) (in_hi m)) x).
+Proof. exact map_value_clamps. Qed.
